@@ -886,7 +886,17 @@ func runC10(c *CaseCtx) *CaseResult {
 	if kind == "map" && c.Case%3 == 1 {
 		// root-level hash collisions: nested containers living inside collision groups grow and shrink through their handles
 		cc.Dig = &DigProfile{Alpha: [4]uint64{uint64(3 + r.Intn(8)), 2, 2, 0}, Salt: uint64(r.Int63())}
+		if c.Case%6 == 4 {
+			// collisions on ALL levels: children live (grow, shrink, flip) inside last-level collision lists
+			cc.Dig.Alpha = [4]uint64{uint64(3 + r.Intn(6)), 1, 1, 1}
+		}
 		cc.Prof.KeySpace = 60
+	}
+	if c.Case%12 == 7 {
+		// a hash-input provider covering only part of the key: NESTED maps (always on the default digester) then keep their
+		// children in last-level collision lists, too
+		cc.HipClasses = uint64(3 + r.Intn(8))
+		cc.Prof.KeySpace = 80
 	}
 	cc.Mon = MonCfg{TreeEvery: 1, DeepEvery: 23, RefEvery: 37, ReachEvery: 11, ColdAtCommit: true, DirtyEvery: 5}
 	cc.CommitEvery = []int{5, 20, 60}[c.Case%3]
